@@ -878,6 +878,26 @@ func runNoStuckWait(c *Ctx) {
 				if sel, ok := ast.Unparen(e).(*ast.SelectorExpr); ok && sel.Sel.Name == "verifyPending" && verdictAlwaysDelivered(p) {
 					return "schedule-done", true, true
 				}
+				// a disjunction of the two: either reason holds on its true edge
+				if be, ok := ast.Unparen(e).(*ast.BinaryExpr); ok && be.Op == token.LOR {
+					all := true
+					var walk func(x ast.Expr)
+					walk = func(x ast.Expr) {
+						if b2, ok := ast.Unparen(x).(*ast.BinaryExpr); ok && b2.Op == token.LOR {
+							walk(b2.X)
+							walk(b2.Y)
+							return
+						}
+						sel, ok := ast.Unparen(x).(*ast.SelectorExpr)
+						if !ok || !(sel.Sel.Name == "scheduleDone" || (sel.Sel.Name == "verifyPending" && verdictAlwaysDelivered(p))) {
+							all = false
+						}
+					}
+					walk(be)
+					if all {
+						return "schedule-done", true, true
+					}
+				}
 				return "", false, false
 			}},
 		}}
